@@ -62,8 +62,10 @@ _A[1, 2] = True
 _B = np.zeros((2, 3), dtype=bool)
 _B[1, 1] = True
 # explicit masks: id -> array (ids 1..); the layouts they fit are listed in MASK_FITS
-MASKS = {1: _A, 2: _B, 3: np.ascontiguousarray(_A.T), 4: np.ascontiguousarray(_A[::-1, :])}
-MASK_FITS = {1: ["u34", "u34_dec", None], 2: ["u34", "u34_dec", None], 3: ["u34_rev", None], 4: ["u34_dec", "u34", None]}
+MASKS = {1: _A, 2: _B, 3: np.ascontiguousarray(_A.T), 4: np.ascontiguousarray(_A[::-1, :]),
+         5: np.zeros((2, 3), dtype=bool)}   # 5: an explicit mask that hides nothing (still a mask: a `Mask.NONE` consumer refuses it)
+MASK_FITS = {1: ["u34", "u34_dec", None], 2: ["u34", "u34_dec", None], 3: ["u34_rev", None], 4: ["u34_dec", "u34", None],
+             5: ["u34", "u34_dec", None]}
 UNITS = ["m", "km", "s", "K", "degC", "mm"]
 N_UNITS = len(UNITS)
 _S = fm.UNITS.Unit("s")
